@@ -5656,7 +5656,7 @@ func NewLsPrefixTLVs(pd *LsPrefixDescriptor) []LsTLVInterface {
 		}
 
 		prefixSize := ipReach.Bits()
-		lenIpPrefix := (prefixSize-1)/8 + 1
+		lenIpPrefix := (prefixSize + 7) / 8
 		ip := ipReach.Addr().AsSlice()
 
 		lsTLVs = append(lsTLVs, &LsTLVIPReachability{
@@ -6941,7 +6941,7 @@ func NewLsTLVLocalIPv6RouterID(l *netip.Addr) *LsTLVLocalIPv6RouterID {
 	return &LsTLVLocalIPv6RouterID{
 		LsTLV: LsTLV{
 			Type:   LS_TLV_IPV6_LOCAL_ROUTER_ID,
-			Length: 0,
+			Length: net.IPv6len,
 		},
 		IP: *l,
 	}
@@ -6998,7 +6998,7 @@ func NewLsTLVRemoteIPv6RouterID(l *netip.Addr) *LsTLVRemoteIPv6RouterID {
 	return &LsTLVRemoteIPv6RouterID{
 		LsTLV: LsTLV{
 			Type:   LS_TLV_IPV6_REMOTE_ROUTER_ID,
-			Length: 4,
+			Length: net.IPv6len,
 		},
 		IP: *l,
 	}
@@ -8395,7 +8395,7 @@ func NewLsTLVSrCapabilities(l *LsSrCapabilities) *LsTLVSrCapabilities {
 		flags = flags | 1<<6
 	}
 	ranges := []LsSrLabelRange{}
-	var length uint16
+	var length uint16 = 2 // Flags(1) + Reserved(1)
 	for _, r := range l.Ranges {
 		ranges = append(ranges, LsSrLabelRange{
 			Range: r.End - r.Begin,
@@ -8407,7 +8407,7 @@ func NewLsTLVSrCapabilities(l *LsSrCapabilities) *LsTLVSrCapabilities {
 				SID: r.Begin,
 			},
 		})
-		length += 4
+		length += 3 + tlvHdrLen + 4 // Range Size(3) + SID/Label sub-TLV
 	}
 	return &LsTLVSrCapabilities{
 		LsTLV: LsTLV{
@@ -8554,7 +8554,7 @@ type LsSrLocalBlock struct {
 func NewLsTLVSrLocalBlock(l *LsSrLocalBlock) *LsTLVSrLocalBlock {
 	var flags uint8 //
 	ranges := []LsSrLabelRange{}
-	var length uint16
+	var length uint16 = 2 // Flags(1) + Reserved(1)
 	for _, r := range l.Ranges {
 		ranges = append(ranges, LsSrLabelRange{
 			Range: r.End - r.Begin,
@@ -8566,7 +8566,7 @@ func NewLsTLVSrLocalBlock(l *LsSrLocalBlock) *LsTLVSrLocalBlock {
 				SID: r.Begin,
 			},
 		})
-		length += 4
+		length += 3 + tlvHdrLen + 4 // Range Size(3) + SID/Label sub-TLV
 	}
 	return &LsTLVSrLocalBlock{
 		LsTLV: LsTLV{
@@ -9768,7 +9768,7 @@ type LsTLVPeerAdjacencySID struct {
 func NewLsTLVPeerAdjacencySID(l *LsBgpPeerSegmentSID) *LsTLVPeerAdjacencySID {
 	return &LsTLVPeerAdjacencySID{
 		LsTLV: LsTLV{
-			Type:   LS_TLV_ADJACENCY_SID,
+			Type:   LS_TLV_PEER_ADJACENCY_SID,
 			Length: l.Flags.SidLen(),
 		},
 		Flags:  l.Flags.FlagBits(),
@@ -10019,7 +10019,7 @@ func NewLsTLVPrefixSID(l *uint32) *LsTLVPrefixSID {
 	return &LsTLVPrefixSID{
 		LsTLV: LsTLV{
 			Type:   LS_TLV_PREFIX_SID,
-			Length: 0,
+			Length: 8, // Flags(1) + Algorithm(1) + Reserved(2) + 4-octet index (no V/L flag is set)
 		},
 		Flags:     flags, // TODO: Implementation for IGP
 		Algorithm: 0,     // TODO: Implementation for IGP
@@ -10365,7 +10365,7 @@ func NewLsTLVOpaquePrefixAttr(l *[]byte) *LsTLVOpaquePrefixAttr {
 	return &LsTLVOpaquePrefixAttr{
 		LsTLV: LsTLV{
 			Type:   LS_TLV_OPAQUE_PREFIX_ATTR,
-			Length: 0,
+			Length: uint16(len(*l)),
 		},
 		Attr: *l,
 	}
